@@ -287,6 +287,10 @@ def run(ctx, res):
         res.ok(rid4, "glr/filter-table", fg.loc(), "retain iff longest_match, then truncate(1) iff grammar_order")
     else:
         res.violation(rid4, "glr/filter-table", "GLR lexical filter table is %s, documented %s" % (sorted(rows, key=str), sorted(exp, key=str)), fg.loc())
+    # who may change the candidate tokens between the lexer and the parser: retain (longest match) and truncate (grammar
+    # order) only - anything else that takes tokens out (dedup, remove, pop, drain, clear, sort, swap) drops or reorders
+    # lexical alternatives the documented strategies would have kept
+    rt.token_mutators(F, res, rid4)
     # R5 lexer maps expected kinds to recognisers in order
     rid5 = res.rule("C06-R5", "the lexer tries exactly the expected (kind, flag) pairs, in the given order, each with the recogniser of "
                     "its own kind", floor=1)
